@@ -90,6 +90,7 @@ type Frame struct {
 	Loops  map[int]*LoopCtx
 	Defers []func(m *Machine)
 	Key    string // inlining context key for loop specs ("" for top, "callee" for inlined helpers)
+	OnRet  func(m *Machine, res []Val) Val // callback frames pushed by a dependency model: maps the callback's results to the model's result
 }
 
 type Snapshot struct {
@@ -662,6 +663,12 @@ func (E *Engine) ret(m *Machine, f *Frame, res []Val, onEnd func(pathEnd)) bool 
 		return true
 	}
 	caller := m.top()
+	if f.OnRet != nil {
+		if v, ok := f.Call.(ssa.Value); ok {
+			caller.Env[v] = f.OnRet(m, res)
+		}
+		return false
+	}
 	if f.Call != nil {
 		if v, ok := f.Call.(ssa.Value); ok {
 			switch len(res) {
